@@ -39,7 +39,7 @@ SHARD_TIMEOUT = {"quick": 900, "thorough": 3400}
 
 WEIRD = ["we+ird", "d$x", "c^t", "k(1)", "br[a]", "q?m", "pi|pe", "cur{l}y", "back\\slash".replace("\\", "_"), "st*r".replace("*", "_")]
 ALPHA_P = "ab*./+"
-ALPHA_S = "ab./+"
+ALPHA_S = "ab./+A"  # incl. an upper-case letter: patterns are case-sensitive
 
 
 def plan(tier, seed):
